@@ -303,7 +303,7 @@ def monLoad (op : List String) (exts : List (List String)) (obs : Option String)
               [{ prop := "C29", sig := s!"C29:slice-option-keeps-first-element:{(who.toList.takeWhile Char.isAlpha |> String.ofList)}",
                  what := s!"{path}: documented value {valTok expected} from {who}, effective {valTok eff}" }]
             else
-              [{ prop := "C29", sig := s!"C29:precedence:{(tk op "k").getD "?"}:expected-{who}",
+              [{ prop := "C29", sig := s!"C29:precedence:{(tk op "k").getD "?"}:expected-{who}{if p.s.opts.length > 1 then ":fallback-chain" else ""}",
                  what := s!"{path}: expected {valTok expected} (from {who}), effective {valTok eff}" }]
         let docd : List Fail :=
           match (tk op "doc").bind parseVal with
